@@ -107,7 +107,8 @@ static uint64_t universe[4096]; static size_t n_univ;
 static unsigned long long ord_log[4096]; static size_t ord_n; static int ord_on;
 static int load_bound_broken; /* C20: size > threshold right after a successful insertion */
 static char extra_phys[64]; /* out-value of remove/iter_remove: the table's dummy value, judged at L3 only */
-static void shim_reset(void) { sparse = 0; hs = NULL; it_valid = 0; n_univ = 0; }
+static void eids_reset(void);
+static void shim_reset(void) { eids_reset(); sparse = 0; hs = NULL; it_valid = 0; n_univ = 0; }
 static void univ_add(uint64_t k) {
     for (size_t i = 0; i < n_univ; i++) if (universe[i] == k) return;
     if (n_univ < 4096) universe[n_univ++] = k;
@@ -147,6 +148,40 @@ static const char *ptr_name(TableEntry *p, char *buf) {
         if (e == p) { snprintf(buf, 32, "%llu", keyval(e->key)); return buf; }
     return "x";
 }
+
+/* ---- entry ids in allocation order: an entry gets the next serial number when it is first seen by this walk (at
+   most one entry is allocated per operation and every operation is followed by the walk); an entry that has left
+   the table loses its id, so an address the allocator hands out again gets a fresh serial -- exactly the ids of the
+   pointer-level model (Model/PHash.lean).  `pe=[bucket:id:key:next,...]` prints every chain with its raw links. */
+#define NEIDS 65536
+static struct { TableEntry *p; unsigned long id; unsigned long gen; } eids[NEIDS];
+static size_t n_eids; static unsigned long eid_next, eid_gen;
+static void eids_reset(void) { n_eids = 0; eid_next = 0; }
+static void eids_scan(CC_HashTable *t) {
+    eid_gen++;
+    for (size_t i = 0; i < t->capacity; i++) for (TableEntry *e = t->buckets[i]; e; e = e->next) {
+        size_t j; for (j = 0; j < n_eids; j++) if (eids[j].p == e) break;
+        if (j == n_eids) { if (n_eids >= NEIDS) { fprintf(stderr, "entry id table full\n"); exit(3); }
+            eids[n_eids].p = e; eids[n_eids].id = eid_next++; n_eids++; }
+        eids[j].gen = eid_gen;
+    }
+    size_t k = 0; for (size_t j = 0; j < n_eids; j++) if (eids[j].gen == eid_gen) eids[k++] = eids[j];
+    n_eids = k;
+}
+static void o_eid(TableEntry *p) {
+    if (!p) { o("-"); return; }
+    for (size_t j = 0; j < n_eids; j++) if (eids[j].p == p) { o("%lu", eids[j].id); return; }
+    o("x");
+}
+static void o_pentries(CC_HashTable *t) {
+    eids_scan(t);
+    o(" pe=["); int first = 1;
+    for (size_t i = 0; i < t->capacity; i++) for (TableEntry *e = t->buckets[i]; e; e = e->next) {
+        o(first ? "%zu:" : ",%zu:", i); first = 0; o_eid(e); o(":%llu:", keyval(e->key)); o_eid(e->next);
+    }
+    o("]");
+}
+
 static void phys(void) {
     if (!hs) { o("-"); return; }
     CC_HashTable *ht = hs->table;
@@ -158,6 +193,8 @@ static void phys(void) {
     }
     o_end();
     if (it_valid) { char b1[32], b2[32]; o(" it=%zu/%s/%s", it.iter.bucket_index, ptr_name(it.iter.prev_entry, b1), ptr_name(it.iter.next_entry, b2)); }
+    o_pentries(ht);
+    if (it_valid) { o(" pit=%zu/", it.iter.bucket_index); o_eid(it.iter.prev_entry); o("/"); o_eid(it.iter.next_entry); }
     if (ord_on) { o(" "); O_LIST("ord"); for (size_t i = 0; i < ord_n; i++) o_item(ord_log[i]); o_end(); }
     o("%s", extra_phys);
     /* L2 walkers */
@@ -177,12 +214,12 @@ static void do_op(Cmd *c) {
     ord_on = 0; ord_n = 0; extra_phys[0] = 0; load_bound_broken = 0;
     if (is_op(c, "new")) {
         CC_HashSetConf conf; conf_from_cmd(c, &conf);
-        hs = NULL; it_valid = 0;
+        hs = NULL; it_valid = 0; eids_reset();
         enum cc_stat st = cc_hashset_new_conf(&conf, &hs);
         if (st != CC_OK) hs = NULL;
         o_stat(st); o(" ");
     } else if (is_op(c, "new_default")) {
-        hs = NULL; it_valid = 0; key_kind = K_STR; key_fresh = 0; sparse = !strcmp(kv_str(c, "obs", "full"), "sparse");
+        hs = NULL; it_valid = 0; eids_reset(); key_kind = K_STR; key_fresh = 0; sparse = !strcmp(kv_str(c, "obs", "full"), "sparse");
         enum cc_stat st = cc_hashset_new(&hs); if (st != CC_OK) hs = NULL; o_stat(st); o(" ");
     } else if (!hs) { o("st=- nosession ");
     } else if (is_op(c, "add")) {
